@@ -201,6 +201,9 @@ func (e *emitter) errName() string {
 // out-of-line declarations as needed.
 func (e *emitter) flowTaskFn(t *ps.Task) string {
 	pid := e.p.PID
+	if e.p.Quirk == "sig-shape" && e.p.QuirkK == t.K {
+		return shapeFn(e.p.SigP, e.p.SigR)
+	}
 	switch t.Form {
 	case "lit":
 		cn := e.ctxName()
@@ -233,6 +236,32 @@ func (e *emitter) flowTaskFn(t *ps.Task) string {
 		return "fx." + name
 	}
 	panic("bad form " + t.Form)
+}
+
+// shapeFn is a type-correct function literal with the given parameter / result kinds
+// (c context.Context, v T2, e error; trailing V = the last parameter is variadic).
+func shapeFn(sigP, sigR string) string {
+	variadic := strings.HasSuffix(sigP, "V")
+	sigP = strings.TrimSuffix(sigP, "V")
+	var ps, rs, zs []string
+	for i, k := range sigP {
+		ty := "T2"
+		if k == 'c' {
+			ty = "context.Context"
+		}
+		if variadic && i == len(sigP)-1 {
+			ty = "..." + ty
+		}
+		ps = append(ps, fmt.Sprintf("_ %s", ty))
+	}
+	for _, k := range sigR {
+		if k == 'e' {
+			rs, zs = append(rs, "error"), append(zs, "nil")
+		} else {
+			rs, zs = append(rs, "T2"), append(zs, "T2(0)")
+		}
+	}
+	return fmt.Sprintf("func(%s) (%s) { return %s }", strings.Join(ps, ", "), strings.Join(rs, ", "), strings.Join(zs, ", "))
 }
 
 func (e *emitter) predFn(t *ps.Task) string {
